@@ -45,7 +45,7 @@ CHECKS.update({
 
 CHECKS.update({
     "C02": ("fault_enumeration", "crash-point enumeration over a recorded I/O trace of generated histories (proptest) + reference-model oracle + generated continuation",
-            "Every effect boundary and aimed/generated byte cuts of every write of each generated history are turned into the directory image a process crash would leave, which the real open() then recovers; the recovered state must be the completed prefix, optionally with the in-flight call (or a partially applied in-flight truncate/delete), a generated continuation + restart must behave as on a never-crashed log, and recovery's own writes are crashed again (depth 2). Exhaustive for traces <= 4000 written bytes; sampled cuts otherwise.",
+            "Every effect boundary and aimed/generated byte cuts of every write of each generated history are turned into the directory image a process crash would leave, which the real open() then recovers; the recovered state must be the state the live log showed after the completed calls, optionally with the in-flight call (or a partially applied in-flight truncate/delete); a plain second restart must reproduce it; a generated continuation is applied in lock-step to the recovered log and to a freshly built never-crashed log with the same state (differential); recovery's own writes are crashed again (depth 2). Exhaustive for traces <= 4000 written bytes; sampled cuts otherwise.",
             "Trusted: process-crash model (program-order effects, atomic create/set_len/unlink), derivation of OS-level writes from BufWriter occupancy (self-checked against the real directory).", "9/C02"),
     "C03": ("fault_enumeration", "crash-point enumeration under two loss models (process crash, power loss) over recorded I/O traces of generated (policy, history) pairs; monotone 'at least as recent' oracle",
             "For every policy family and generated histories with explicit persist calls, each effect boundary (and byte cuts, for process crashes) is turned into the image left by a process crash (buffer lost) or by a power loss (adversarial: all unsynced bytes lost and all unlinks applied; mixed: generated prefixes), and the recovered state must be at least as recent as the last call whose return guarantees persistence under that model.",
